@@ -640,6 +640,19 @@ def client_order_half(ck, seed):
             ck.violation('client-read-order', 'with %d ns passing at every clock read, ClockErrorBound::now() (reads %s) centres the interval on its realtime reading #%d but ages the record only up to a monotonic reading taken before it: half-width %d ns < %d ns (bound + drift up to the instant of that realtime reading); the delay shrinks the interval instead of widening it'
                          % (adv, reads, kk, hw, need), {'cmd': cmd, 'native': out})
             found = True; break
+    # the calls clients make (ClockBoundClient::now, clockbound_now): the record is obtained BEFORE the clocks are read.  The daemon
+    # publishes a new record at the first clock read of a call: the answer must be the one computed from the record held before.
+    if not found:
+        out = rp.ask('abi3')
+        ck.cov['evaluations'] += 1
+        f = dict(x.split('=', 1) for x in out.split()[1:] if '=' in x) if out.startswith('ok') else {}
+        want = 'now_ok:1699999999.999994000:1700000000.6000:1'
+        for who in ('rust', 'c'):
+            if f.get(who) and f[who].startswith('now_ok') and f[who] != want:
+                ck.violation('client-read-order', 'the daemon publishes a record (bound 5 s, as_of 0.5 s later) at the first clock read of one %s call: the call returns %s - the interval of the NEW record around a realtime reading taken before that record existed (it read the clock before it took its snapshot); expected the answer from the record held before the clock reads: %s'
+                             % ('ClockBoundClient::now()' if who == 'rust' else 'clockbound_now()', f[who][7:], want[7:]), {'cmd': 'abi3', 'native': out})
+                found = True; break
+        ck.cov['native_publication_at_first_clock_read'] = out[:200]
     rp.close()
     if pr2.failed and not found:
         ck.inconclusive.append('client-side clause failed in the encoding but the native runs (advancing virtual clock) are centred on a realtime reading and wide enough')
